@@ -1724,14 +1724,21 @@ func (s *ShowStatement) statementNode()      {}
 func (s ShowStatement) TokenLiteral() string { return "SHOW" }
 func (s ShowStatement) Children() []Node     { return nil }
 
-// DescribeStatement represents MySQL DESCRIBE/DESC/EXPLAIN table commands
+// DescribeStatement represents MySQL DESCRIBE/DESC/EXPLAIN table commands and
+// EXPLAIN/DESCRIBE of a query.
 type DescribeStatement struct {
-	TableName string
+	TableName string    // the described table; "SELECT" when a query is explained
+	Query     Statement // the explained query (EXPLAIN SELECT ...), nil for DESCRIBE table
 }
 
 func (d *DescribeStatement) statementNode()      {}
 func (d DescribeStatement) TokenLiteral() string { return "DESCRIBE" }
-func (d DescribeStatement) Children() []Node     { return nil }
+func (d DescribeStatement) Children() []Node {
+	if d.Query != nil {
+		return []Node{d.Query}
+	}
+	return nil
+}
 
 // ReplaceStatement represents MySQL REPLACE INTO statement
 type ReplaceStatement struct {
